@@ -6,6 +6,9 @@ namespace Frappy.Comm
 def sentPhase (p : Pc) : Bool := match p with | .read | .relI | .readX => true | _ => false
 def afterDelay (p : Pc) : Bool := match p with
   | .check | .chkNow | .rcheck | .connecting | .visT | .cbs _ | .acqI | .slpWB | .wakeWB | .flush | .drain | .relO => true
+  -- checkHWIdent runs inside check_connection of the next request: the delay of the previous one is over
+  | .idChk | .idChkNow | .idAcq | .idSlp | .idWake | .idFlush | .idDrain | .idRead | .idRel
+  | .idClosing _ | .idVisF _ | .idFail | .idEnd _ => true
   | _ => false
 def livePc (p : Pc) : Bool := match p with | .fail | .done | .idle | .closing | .visF => false | _ => true
 
@@ -97,29 +100,65 @@ theorem ghost_nextReq (t : Nat) (k : Caller) (p1 : k.sent = k.popped) (p2 : k.to
       constructor <;> intros <;> simp_all [livePc, sentPhase, afterDelay, lastDelay]
   · constructor <;> intros <;> simp_all [livePc, sentPhase, afterDelay, lastDelay]
 
-theorem ghost_afterConnected (t : Nat) (s : State) (k : Caller) (hs : k.idSaved = []) (p1 : k.sent = k.popped)
+theorem ghost_afterConnected (t : Nat) (s : State) (k : Caller) (p1 : k.sent = k.popped)
     (p2 : k.todo = k.reqs0.drop k.popped)
     (p3 : k.kind = .multi → 1 ≤ k.sent → k.sendT + lastDelay k ≤ t) : GhostOk t (afterConnected s k) := by
-  rw [afterConnected_ni s hs]
+  unfold afterConnected
   split
-  · by_cases hm : k.kind = .poll
-    · simp only [hm, if_true]
-      constructor <;> intros <;> simp_all [livePc, sentPhase, afterDelay, lastDelay]
-    · simp only [hm, if_false]
-      constructor <;> intros <;> simp_all [livePc, sentPhase, afterDelay, lastDelay]
   · split
-    · next hm => constructor <;> intros <;> simp_all [livePc, sentPhase, afterDelay, lastDelay]
-    · exact ghost_failTo t k
+    · by_cases hm : k.kind = .poll
+      · simp only [hm, if_true]
+        constructor <;> intros <;> simp_all [livePc, sentPhase, afterDelay, lastDelay]
+      · simp only [hm, if_false]
+        constructor <;> intros <;> simp_all [livePc, sentPhase, afterDelay, lastDelay]
+    · constructor <;> intros <;> simp_all [livePc, sentPhase, afterDelay, lastDelay]
+  · split
+    · split
+      · next hm => constructor <;> intros <;> simp_all [livePc, sentPhase, afterDelay, lastDelay]
+      · exact ghost_failTo t k
+    · constructor <;> intros <;> simp_all [livePc, sentPhase, afterDelay, lastDelay]
 
-theorem ghost_afterIdent (t : Nat) (s : State) (k : Caller) (hs : k.idSaved = []) (p1 : k.sent = k.popped)
+theorem ghost_rcFail (t : Nat) (k : Caller) (p1 : k.sent = k.popped) (p2 : k.todo = k.reqs0.drop k.popped)
+    (p3 : k.kind = .multi → 1 ≤ k.sent → k.sendT + lastDelay k ≤ t) : GhostOk t (rcFail k) := by
+  unfold rcFail
+  split
+  · exact ghost_failTo t k
+  · constructor <;> intros <;> simp_all [livePc, sentPhase, afterDelay, lastDelay]
+
+theorem ghost_afterIdent (t : Nat) (s : State) (k : Caller) (p1 : k.sent = k.popped)
     (p2 : k.todo = k.reqs0.drop k.popped)
     (p3 : k.kind = .multi → 1 ≤ k.sent → k.sendT + lastDelay k ≤ t) : GhostOk t (afterIdent s k) := by
   unfold afterIdent
   split
   · split
-    · exact ghost_afterConnected t s k hs p1 p2 p3
+    · exact ghost_afterConnected t s k p1 p2 p3
     · constructor <;> intros <;> simp_all [livePc, sentPhase, afterDelay, lastDelay]
-  · exact ghost_afterConnected t s k hs p1 p2 p3
+  · exact ghost_afterConnected t s k p1 p2 p3
+
+theorem ghost_startIdent (t : Nat) (s : State) (k : Caller) (p1 : k.sent = k.popped)
+    (p2 : k.todo = k.reqs0.drop k.popped)
+    (p3 : k.kind = .multi → 1 ≤ k.sent → k.sendT + lastDelay k ≤ t) : GhostOk t (startIdent s k) := by
+  unfold startIdent
+  split
+  · exact ghost_afterIdent t s k p1 p2 p3
+  · constructor <;> intros <;> simp_all [livePc, sentPhase, afterDelay, lastDelay]
+
+theorem ghost_idNext (t : Nat) (cfg : Cfg) (k : Caller) (p1 : k.sent = k.popped) (p2 : k.todo = k.reqs0.drop k.popped)
+    (p3 : k.kind = .multi → 1 ≤ k.sent → k.sendT + lastDelay k ≤ t) : GhostOk t (idNext cfg k) := by
+  unfold idNext
+  split
+  · split <;> (constructor <;> intros <;> simp_all [livePc, sentPhase, afterDelay, lastDelay])
+  · split <;> (constructor <;> intros <;> simp_all [livePc, sentPhase, afterDelay, lastDelay])
+
+theorem ghost_toIdFlush (t : Nat) (s : State) (k : Caller) (p1 : k.sent = k.popped) (p2 : k.todo = k.reqs0.drop k.popped)
+    (p3 : k.kind = .multi → 1 ≤ k.sent → k.sendT + lastDelay k ≤ t) : GhostOk t (toIdFlush s k) := by
+  unfold toIdFlush
+  split <;> (constructor <;> intros <;> simp_all [livePc, sentPhase, afterDelay, lastDelay])
+
+theorem ghost_toIdEndFail (t : Nat) (k : Caller) (p1 : k.sent = k.popped) (p2 : k.todo = k.reqs0.drop k.popped)
+    (p3 : k.kind = .multi → 1 ≤ k.sent → k.sendT + lastDelay k ≤ t) : GhostOk t (toIdEndFail k) := by
+  unfold toIdEndFail
+  constructor <;> intros <;> simp_all [livePc, sentPhase, afterDelay, lastDelay]
 
 theorem ghost_toFlush (t : Nat) (s : State) (k : Caller) (p1 : k.sent = k.popped) (p2 : k.todo = k.reqs0.drop k.popped)
     (p3 : k.kind = .multi → 1 ≤ k.sent → k.sendT + lastDelay k ≤ t) : GhostOk t (toFlush s k) := by
@@ -265,24 +304,32 @@ macro "ghost_prem" : tactic => `(tactic| (
 set_option hygiene false in
 macro "ghost_same" : tactic => `(tactic| exact ⟨rfl, rfl, rfl, rfl, rfl, rfl, rfl⟩)
 
-set_option maxHeartbeats 32000000 in
+set_option hygiene false in
+macro "ghost_ps" : tactic => `(tactic| (first | exact p1 | exact p2 | exact p3 | (simpa using p1) | (simpa using p2) | (simpa [lastDelay] using p3)))
+
+set_option maxHeartbeats 64000000 in
 theorem step_ghost (s s' : State) (t c clock : Nat) (e : Ev) (h : stepCaller s t c e = some s') (hc : clock ≤ t)
-    (hid : s.cfg.ident = []) (hf : identFree (s.callers c))
     (hG : GhostOk clock (s.callers c)) : GhostOk t (s'.callers c) := by
-  step_arms_ni
+  step_arms
   all_goals (try (simp only [setC_same]))
   all_goals (first
     | exact ghost_failTo _ _
     | (apply ghost_mono hG hc <;> first | ghost_same | (simp [hpc]; done))
     | (apply ghost_plain hG hc <;> first | ghost_same | (simp [hpc, livePc, sentPhase, afterDelay]; done))
-    | (ghost_prem; apply ghost_nextReq <;> (first | exact p1 | exact p2 | exact p3); done)
-    | (ghost_prem; apply ghost_afterConnected <;> (first | exact hf.2 | exact p1 | exact p2 | exact p3); done)
-    | (ghost_prem; apply ghost_afterIdent <;> (first | exact hf.2 | exact p1 | exact p2 | exact p3); done)
-    | (ghost_prem; apply ghost_toFlush <;> (first | exact p1 | exact p2 | exact p3); done)
+    | (ghost_prem; apply ghost_nextReq <;> ghost_ps; done)
+    | (ghost_prem; apply ghost_afterConnected <;> ghost_ps; done)
+    | (ghost_prem; apply ghost_afterIdent <;> ghost_ps; done)
+    | (ghost_prem; apply ghost_startIdent <;> ghost_ps; done)
+    | (ghost_prem; apply ghost_rcFail <;> ghost_ps; done)
+    | (ghost_prem; apply ghost_idNext <;> ghost_ps; done)
+    | (ghost_prem; apply ghost_toIdFlush <;> ghost_ps; done)
+    | (ghost_prem; apply ghost_toIdEndFail <;> ghost_ps; done)
+    | (ghost_prem; apply ghost_toFlush <;> ghost_ps; done)
     | (ghost_prem; split <;> first
         | exact ghost_failTo _ _
-        | (apply ghost_afterConnected <;> (first | exact hf.2 | exact p1 | exact p2 | exact p3); done)
-        | (apply ghost_toFlush <;> (first | exact p1 | exact p2 | exact p3); done)
+        | (apply ghost_afterConnected <;> ghost_ps; done)
+        | (apply ghost_toFlush <;> ghost_ps; done)
+        | (apply ghost_toIdFlush <;> ghost_ps; done)
         | (apply ghost_plain hG hc <;> first | ghost_same | (simp [hpc, livePc, sentPhase, afterDelay]; done)))
     | (apply ghost_dead; simp; done)
     | (apply ghost_fresh <;> (simp; done))
